@@ -78,7 +78,9 @@ fn exotic_value(rng: &mut Rng, depth: usize) -> Val {
 
 fn exotic_value_raw(rng: &mut Rng, depth: usize) -> Val {
     let int = |rng: &mut Rng| Val::Int(*rng.pick(&[0, 1, -1, 2, 31, 32, 33, i32::MAX, i32::MIN, i32::MAX - 1, i32::MIN + 1, 65536, -65536, 7]));
-    let leaf = |rng: &mut Rng| match rng.below(16) {
+    let leaf = |rng: &mut Rng| match rng.below(17) {
+        // a value of the host's own (custom) type
+        16 => Val::Custom,
         0 => Val::Unit,
         1 => Val::True,
         2 => Val::False,
@@ -661,6 +663,30 @@ impl Campaign for C07 {
                 let src = c.replace('V', val);
                 v.push(mk(false, &src));
                 v.push(mk(true, &src));
+            }
+        }
+        // values no literal produces, handed in as the input `$`: a value of the host's own (custom) type, an
+        // external, an expression value that names no entry, a type value — through every consumer and operator
+        for input in [Val::Custom, Val::External(3), Val::Expr(9999), Val::Type(3), Val::pair(Val::Custom, Val::Custom), Val::List(vec![Val::Custom])] {
+            let mut with_input = |basic: bool, src: &str| {
+                let mut sc = mk(basic, src);
+                sc.input = input.clone();
+                v.push(sc);
+            };
+            for c in consumers {
+                let src = c.replace('V', "$");
+                with_input(false, &src);
+                with_input(true, &src);
+            }
+            for op in binary {
+                for w in seconds {
+                    let src = format!("$ {} {}", op, w.replace('V', "$"));
+                    with_input(false, &src);
+                    with_input(true, &src);
+                    let src = format!("{} {} $", w.replace('V', "$"), op);
+                    with_input(false, &src);
+                    with_input(true, &src);
+                }
             }
         }
         v
